@@ -540,6 +540,9 @@ func c06NamesFile(c *Check) {
 				}
 			}
 			visit(ev, 0)
+			if !named && callersNameFile(p, f, ei, dependsOnFile) {
+				named = true // a helper: every caller wraps its error with the file name
+			}
 			c.Cond(named, "NAMES-THE-FILE", key, p.pos(ret.Pos()), "the returned error is constructed from, or returned by a callee that was given, the file name", why)
 		}
 	}
@@ -692,4 +695,101 @@ func c06StrictDecode(c *Check) {
 	for _, i := range lax {
 		c.Flagf("STRICT-DECODE", "pkg/pbutil|unknown fields refused", p.pos(i.Pos()), "a decode option with DiscardUnknown switched on is built here: a well-formed JSON/text document of another schema (a Swagger file named x.pb.json) decodes to an empty module and the compile succeeds without naming the file")
 	}
+}
+
+// callersNameFile: f is only called from repository functions, and at every
+// call site the error it returns is used solely in nil tests and as an argument
+// of calls that also receive the file name (the caller builds the message).
+func callersNameFile(p *Program, f *ssa.Function, ei int, dependsOnFile func(ssa.Value) bool) bool {
+	sites := 0
+	ok := true
+	for _, g := range p.RepoFuncs() {
+		eachCall(g, func(cl ssa.CallInstruction) {
+			call, isCall := cl.(*ssa.Call)
+			if !isCall || staticCallee(cl) != f {
+				return
+			}
+			sites++
+			ev := errValueOf(call, ei)
+			if ev == nil || ev.Referrers() == nil {
+				ok = false
+				return
+			}
+			wrapped := false
+			var scan func(v ssa.Value, d int)
+			seen := map[ssa.Value]bool{}
+			scan = func(v ssa.Value, d int) {
+				if d > 8 || seen[v] || v.Referrers() == nil {
+					return
+				}
+				seen[v] = true
+				for _, r := range *v.Referrers() {
+					switch y := r.(type) {
+					case *ssa.BinOp:
+						// nil test
+					case *ssa.Return:
+						ok = false // handed on as it is
+					case *ssa.MakeInterface:
+						scan(y, d+1)
+					case *ssa.ChangeInterface:
+						scan(y, d+1)
+					case *ssa.Phi:
+						scan(y, d+1)
+					case *ssa.Store:
+						if al, isAl := y.Addr.(*ssa.Alloc); isAl && al.Referrers() != nil {
+							for _, r2 := range *al.Referrers() {
+								if ld, isLd := r2.(*ssa.UnOp); isLd {
+									scan(ld, d+1)
+								}
+							}
+						} else if _, isIdx := y.Addr.(*ssa.IndexAddr); isIdx {
+							// packed into the variadic arguments of a formatting call
+							if ia := y.Addr.(*ssa.IndexAddr); ia.X != nil {
+								scan(ia.X, d+1)
+							}
+						} else {
+							ok = false
+						}
+					case *ssa.Slice:
+						scan(y, d+1)
+					case ssa.CallInstruction:
+						named := false
+						for _, a := range y.Common().Args {
+							if a != v && dependsOnFile(a) {
+								named = true
+							}
+						}
+						// Sprintf("%s …: %s", fileName, err): the file name sits in the same variadic pack
+						if !named {
+							for _, a := range y.Common().Args {
+								if sl, isSl := a.(*ssa.Slice); isSl {
+									if al, isAl := sl.X.(*ssa.Alloc); isAl && al.Referrers() != nil {
+										for _, r2 := range *al.Referrers() {
+											if ia, isIA := r2.(*ssa.IndexAddr); isIA && ia.Referrers() != nil {
+												for _, r3 := range *ia.Referrers() {
+													if st, isSt := r3.(*ssa.Store); isSt && dependsOnFile(st.Val) {
+														named = true
+													}
+												}
+											}
+										}
+									}
+								}
+							}
+						}
+						if named {
+							wrapped = true
+						} else {
+							ok = false
+						}
+					}
+				}
+			}
+			scan(ev, 0)
+			if !wrapped {
+				ok = false
+			}
+		})
+	}
+	return ok && sites > 0
 }
